@@ -104,6 +104,10 @@ def build(batches):
 def call(sm, beta_final):
     lw_n, lz_n = sm.compute_logw_and_logz(beta_final)                  # normalize=True is the default
     lw_u, lz_u = sm.compute_logw_and_logz(beta_final, normalize=False)
+    # the arrays are judged AFTER further calls on the same object at other temperatures: what was returned for beta_final
+    # stays what the formula says at beta_final (a result living in a re-used work buffer would not)
+    sm.compute_logw_and_logz(0.5 * beta_final + 0.125)
+    sm.compute_logw_and_logz(0.25 * beta_final + 0.0625, normalize=False)
     return np.asarray(lw_n, dtype=float), float(lz_n), np.asarray(lw_u, dtype=float), float(lz_u)
 
 
